@@ -536,6 +536,22 @@ def r30_conv_geometry(facts):
         c.unk("axis:coverage", "-", "no operation of the convolution routines could be axis-typed: the (rows, cols) / (depth, rows, cols) tuple convention is not visible in this code")
     # ---- sibling agreement of the window-count formula
     c.count("window-count expressions (X / atom + 1)", len(counts))
+    # the documented output extent: (extent - filter extent) / stride + 1
+    spec = ("Add", ("Div", ("Sub", ("atom", 0), ("atom", 1)), ("atom", 2)), ("lit", 1))
+    if counts:
+        fn0, b0, e0, tree0, n0 = counts[0]
+        inst = "count-spec:%s" % fn0.get("name")
+        if tree0 == spec:
+            c.ok(inst, F.loc(b0, e0), "window count = (extent - filter extent) / stride + 1")
+        else:
+            d = _differ(spec, 3, tree0, n0)
+            if d is None:
+                c.ok(inst, F.loc(b0, e0), "window count equals (extent - filter extent) / stride + 1 on the whole integer grid 1..9")
+            elif d == "?":
+                c.unk(inst, F.loc(b0, e0), "window count `%s` is not a function of (extent, filter extent, stride)" % show(e0)[:60])
+            else:
+                vals, a, b2 = d
+                c.bad(inst, F.loc(b0, e0), "window count `%s` is not (extent - filter extent) / stride + 1: inputs %s give %s instead of %s" % (show(e0)[:70], list(vals), b2, a))
     if len(counts) >= 2:
         ref = counts[0]
         for fn, b, e, tree, n in counts[1:]:
